@@ -1,3 +1,180 @@
 import Ptk.Proto
--- stub: the C06 model driver has not been written yet
-def main : IO Unit := Ptk.Proto.run fun _ => "bad-op"
+import Ptk.Model.C06
+open Ptk Ptk.Py Ptk.Proto Ptk.C06
+
+/-! Line-protocol driver for the C06 model (screen differ + renderer state + terminal model).
+    See harness/c06.py for the grammar. -/
+
+structure DS where
+  w : Nat := 1
+  h : Nat := 1
+  fs : Bool := false
+  styles : List (Nat × Attrs) := []
+  wide : Text := []
+  zero : Text := []
+  cur : Screen := Screen.empty
+  prev : Option Screen := none
+  rs : RState := RState.init.1
+  term : Term := Term.fresh 1 1 0 (fun _ _ => TCell.blank)
+
+def DS.attrsOf (d : DS) (i : Nat) : Attrs :=
+  match d.styles.find? (·.1 == i) with
+  | some p => p.2
+  | none => Attrs.dflt
+
+def DS.env (d : DS) : Env := ⟨d.w, d.h, d.fs, d.attrsOf⟩
+def DS.cw (d : DS) (c : Char) : Nat :=
+  if d.wide.contains c then 2 else if d.zero.contains c then 0 else 1
+
+def b01 (b : Bool) : String := if b then "1" else "0"
+
+def encAttrs (a : Attrs) : String :=
+  encStr a.fg ++ "/" ++ encStr a.bg ++ "/" ++ b01 a.bold ++ b01 a.underline ++ b01 a.strike ++
+    b01 a.italic ++ b01 a.blink ++ b01 a.reverse ++ b01 a.hidden
+
+def decFlags (s : String) : Option (List Bool) :=
+  s.toList.mapM fun c => if c = '1' then some true else if c = '0' then some false else none
+
+def decAttrs (fg bg fl : String) : Option Attrs := do
+  let fg ← decStr fg
+  let bg ← decStr bg
+  match ← decFlags fl with
+  | [a, b, c, d, e, f, g] => some ⟨fg, bg, a, b, c, d, e, f, g⟩
+  | _ => none
+
+def encCmd : Cmd → String
+  | .write t => "W" ++ encStr t
+  | .writeRaw t => "R" ++ encStr t
+  | .setAttrs a => "A" ++ encAttrs a
+  | .resetAttrs => "A0"
+  | .cursorUp n => s!"U{n}"
+  | .cursorForward n => s!"F{n}"
+  | .cursorBackward n => s!"B{n}"
+  | .eraseDown => "ED"
+  | .eraseEol => "EL"
+  | .hideCursor => "CH"
+  | .showCursor => "CS"
+  | .disableAutowrap => "aw-"
+  | .enableAutowrap => "aw+"
+  | .eraseScreen => "ES"
+  | .cursorGoto r c => s!"G{r},{c}"
+  | .enterAlt => "alt+"
+  | .quitAlt => "alt-"
+  | .enableMouse => "mouse+"
+  | .disableMouse => "mouse-"
+  | .enablePaste => "paste+"
+  | .disablePaste => "paste-"
+  | .resetCkm => "ckm"
+  | .resetCursorShape => "shape-"
+  | .setCursorShape k => s!"shape{k}"
+  | .scrollToPrompt => "scroll"
+  | .flush => "flush"
+
+def encCmds (cs : List Cmd) : String := encList encCmd cs
+
+def encLast : Option Nat → String
+  | none => "N"
+  | some k => toString k
+
+def parseCells : List String → Option (List Cell)
+  | [] => some []
+  | t :: s :: w :: rest => do
+    let t ← decStr t
+    let s ← decNat s
+    let w ← decNat w
+    let cs ← parseCells rest
+    pure (⟨t, s, w⟩ :: cs)
+  | _ => none
+
+def decLast (tok : String) : Option (Option Nat) :=
+  if tok == "N" then some none else tok.toNat?.map some
+
+def encTCell (c : TCell) : String :=
+  ".".intercalate (c.ch.map fun ch => toString ch.toNat) ++ ";" ++ encAttrs c.attrs
+
+def encGrid (t : Term) : String :=
+  let rows := (List.range t.h).map fun y =>
+    "|".intercalate ((List.range t.w).map fun x => encTCell (t.cells y x))
+  s!"{t.row} {t.col} {b01 t.visible} {b01 t.autowrap} {encAttrs t.sgr} {t.scrolled} {b01 t.oob} " ++
+    " ".intercalate rows
+
+def encRS (r : RState) : String :=
+  s!"{r.pos.x} {r.pos.y} {encLast r.lastStyle} {b01 r.lastScreen.isSome} {b01 r.inAlt}{b01 r.mouse}{b01 r.paste}{b01 r.ckm}"
+
+def DS.run (d : DS) (cs : List Cmd) : DS := { d with term := exec d.cw d.term cs }
+
+def step (d : DS) (toks : List String) : DS × String :=
+  let bad := (d, "bad-op")
+  match toks with
+  | ["cfg", w, h, fs] =>
+    match decNat w, decNat h, decBool fs with
+    | some w, some h, some fs =>
+      ({ w := w, h := h, fs := fs, term := Term.fresh w h 0 (fun _ _ => TCell.blank) }, "ok")
+    | _, _, _ => bad
+  | ["size", w, h] =>
+    match decNat w, decNat h with
+    | some w, some h => ({ d with w := w, h := h }, "ok")
+    | _, _ => bad
+  | ["style", i, fg, bg, fl] =>
+    match decNat i, decAttrs fg bg fl with
+    | some i, some a => ({ d with styles := (i, a) :: d.styles }, "ok")
+    | _, _ => bad
+  | ["cw", k, s] =>
+    match decNat k, decStr s with
+    | some 2, some s => ({ d with wide := s }, "ok")
+    | some 0, some s => ({ d with zero := s }, "ok")
+    | _, _ => bad
+  | ["scr", hh, cx, cy, sh] =>
+    match decNat hh, decNat cx, decNat cy, decBool sh with
+    | some hh, some cx, some cy, some sh =>
+      ({ d with cur := ⟨[], [], hh, ⟨cx, cy⟩, sh⟩ }, "ok")
+    | _, _, _, _ => bad
+  | "row" :: rest =>
+    match parseCells rest with
+    | some cs => ({ d with cur := { d.cur with rows := d.cur.rows ++ [cs] } }, "ok")
+    | none => bad
+  | ["zwe", y, x, t] =>
+    match decNat y, decNat x, decStr t with
+    | some y, some x, some t => ({ d with cur := { d.cur with zwe := d.cur.zwe ++ [(y, x, t)] } }, "ok")
+    | _, _, _ => bad
+  | ["keep"] => ({ d with prev := some d.cur }, "ok")
+  | ["noprev"] => ({ d with prev := none }, "ok")
+  | ["diff", px, py, last, isDone, pw] =>
+    match decNat px, decNat py, decLast last, decBool isDone, decNat pw with
+    | some px, some py, some last, some isDone, some pw =>
+      let o := diff d.env d.cur ⟨px, py⟩ d.prev last isDone pw
+      (d.run o.cmds, s!"{encCmds o.cmds} | {o.pos.x} {o.pos.y} {encLast o.last}")
+    | _, _, _, _, _ => bad
+  | ["init"] =>
+    let r := RState.init
+    ({ d with rs := r.1 }.run r.2, s!"{encCmds r.2} | {encRS r.1}")
+  | ["render", isDone, mouse, key, shape] =>
+    match decBool isDone, decBool mouse, decNat key, decNat shape with
+    | some isDone, some mouse, some key, some shape =>
+      let r := d.rs.render d.env d.cur isDone mouse key shape
+      ({ d with rs := r.1 }.run r.2, s!"{encCmds r.2} | {encRS r.1}")
+    | _, _, _, _ => bad
+  | ["erase", la] =>
+    match decBool la with
+    | some la =>
+      let r := d.rs.erase la
+      ({ d with rs := r.1 }.run r.2, s!"{encCmds r.2} | {encRS r.1}")
+    | none => bad
+  | ["reset", sc, la] =>
+    match decBool sc, decBool la with
+    | some sc, some la =>
+      let r := d.rs.reset sc la
+      ({ d with rs := r.1 }.run r.2, s!"{encCmds r.2} | {encRS r.1}")
+    | _, _ => bad
+  | ["clear"] =>
+    let r := d.rs.clear
+    ({ d with rs := r.1 }.run r.2, s!"{encCmds r.2} | {encRS r.1}")
+  | ["term", top] =>
+    match decNat top with
+    | some top => ({ d with term := Term.fresh d.w d.h top (fun _ _ => TCell.blank) }, "ok")
+    | none => bad
+  | ["rebase"] => ({ d with term := d.term.rebase }, "ok")
+  | ["grid"] => (d, encGrid d.term)
+  | _ => bad
+
+def main : IO Unit := runS step {}
